@@ -66,6 +66,9 @@ BOXES = {
     "B_3d": [(-1.0, 1.0), (-1.0, 1.0), (-1.0, 1.0)],
     "B_zero": [(0.0, 5.0), (-5.0, 0.0)],  # bounds that are exactly zero
     "B_6d": [(-2.0, 3.0)] * 6,
+    # 'scale' worlds: larger dimensions, every dimension with its own bounds
+    "B_12d": [(-5.0 + 0.5 * j, 5.0 + 1.5 * j) if j % 3 else (-0.1 * (j + 1), 0.2 * (j + 1)) for j in range(12)],
+    "B_30d": [(-3.0 - 0.25 * j, 2.0 + 0.5 * j) for j in range(30)],
     "B_1d": [(-2.0, 6.0)],
     "B_5d": [(-1.0, 2.0), (0.5, 1.5), (-3.0, -1.0), (10.0, 12.0), (-0.5, 0.5)],
 }
@@ -103,7 +106,7 @@ EXPECTED_CLASS = {
 POP_SIZE = {e: 6 for e in POP_ENGINES}
 POP_SIZE.update({"LHS": 5, "SOB": 4, "STUB": 3, "STUBEA": 3, "STUBX": 3})
 
-_CENTER = np.array([0.3, 0.6, 0.45, 0.55, 0.35, 0.65, 0.4, 0.5])
+_CENTER = np.array(([0.3, 0.6, 0.45, 0.55, 0.35, 0.65, 0.4, 0.5] * 5))  # first 8 entries as always; repeated up to dimension 40
 
 
 def box_array(box) -> np.ndarray:
@@ -181,6 +184,14 @@ def make_objective(name: str, box: np.ndarray, maximize: bool, shift: float = 0.
 
         def f(x):
             return 0.0 + shift
+
+    elif name == "illcond":
+        # ill-conditioned ellipsoid (condition 1e6), optimum inside: local searches need hundreds of iterations
+        w = 10.0 ** (6.0 * np.arange(d) / max(d - 1, 1))
+
+        def f(x):
+            u = (np.asarray(x, dtype=float) - lo) / rng
+            return float(np.sum(w * (u - c) ** 2)) + shift
 
     elif name == "intpen":
         # a death penalty written as a Python int on a slab of the box, floats elsewhere (non-uniform return type)
@@ -657,9 +668,9 @@ def make_level(engine, problem, lsc, gens, box, desc):
         kw = {"method": desc["loc_method"]} if desc.get("loc_method") else {}
         return LocalOptimizationConfig(problem=problem, lsc=lsc, maxiter=desc.get("loc_maxiter", 5), **kw)
     if engine == "LHS":
-        return LHSLevelConfig(problem=problem, lsc=lsc, pop_size=5)
+        return LHSLevelConfig(problem=problem, lsc=lsc, pop_size=desc.get("lhs_pop", 5))
     if engine == "SOB":
-        return SobolLevelConfig(problem=problem, lsc=lsc, pop_size=4)
+        return SobolLevelConfig(problem=problem, lsc=lsc, pop_size=desc.get("lhs_pop", 4))
     if engine in ("STUB", "STUBX"):
         return StubLevelConfig(problem=problem, lsc=lsc)
     if engine == "STUBEA":
